@@ -16,6 +16,7 @@ import json
 import os
 import random
 import re
+import subprocess
 import threading
 import concurrent.futures
 
@@ -31,10 +32,114 @@ BUG_GUARDS = ["FromIntNarrowBug", "Log2ShiftBug", "CeilDivSignedBug", "DiffPromo
 # UBSan aborts via SIGABRT so that the harness' handler can append the {"e":"abort"} line naming the call
 UBSAN = "print_stacktrace=1:halt_on_error=1:exitcode=66:abort_on_error=1"
 PAR = max(2, min(8, vlib.NCPU // 2))      # the box is shared with other checks
+RUN_TIMEOUT = 900                         # per section process; a hang inside a call is ended by the alarm() watchdog long before
 
 
-def build():
-    return vlib.build_harness(HARNESS, ["c06_intmath.cpp"], libs=())
+# Section groups of harness/c06_drive.hpp (macro C06_GROUP = id compiles only that group's drivers and includes):
+# (id, name used in signatures, in scope of the statement of C06)
+GROUPS = [(1, "truncation_check", True), (2, "from_int", True), (3, "log2", True), (4, "is_power_of_2", True),
+          (5, "next_power_of_2", True), (6, "div", True), (7, "mod", True), (8, "diff", True), (9, "bit_test", True),
+          (10, "ceil_div", True), (11, "ceil_div_signed", True), (12, "clamp", True), (13, "power_of_2", True),
+          (14, "interval_distance", False), (15, "conv", False), (16, "enum_casts", False), (17, "mask_c", True),
+          (18, "to_uint_ptr", False)]
+# section name (without "math:") -> function named in a signature when the process died without naming the call
+SECTION_PREFIX_FN = [("tc_", "truncation_check"), ("from_int", "from_int"), ("log2", "log2"), ("is_power_of_2", "is_power_of_2"),
+                     ("next_power_of_2", "next_power_of_2"), ("div", "div"), ("mod", "mod"), ("diff", "diff"), ("bit_test", "bit_test"),
+                     ("ceil_div_signed", "ceil_div_signed"), ("ceil_div", "ceil_div"), ("clamp", "clamp"), ("power_of_2", "power_of_2"),
+                     ("interval_distance", "interval_distance"), ("conv_", "conv"), ("enum_casts", "enum_casts"), ("mask_c", "mask_c"),
+                     ("misc", "to_uint_ptr")]
+
+
+def fn_of_section(s):
+    s = s[5:] if s.startswith("math:") else s
+    for pre, fn in SECTION_PREFIX_FN:
+        if s.startswith(pre):
+            return fn
+    return s
+
+
+def genuine_compile_error(out):
+    """a diagnostic of the compiler about the code, as opposed to the compiler being killed / out of memory / out of
+    disk on the shared box (our infrastructure, never a verdict)"""
+    if re.search(r"Killed signal|internal compiler error|virtual memory exhausted|No space left|cannot allocate memory|std::bad_alloc", out):
+        return False
+    body = re.sub(r"^compile failed: [^\n]*\n?", "", out)
+    return re.search(r"error|note: |required from|In file included", body) is not None
+
+
+def first_error(out):
+    for l in out.splitlines():
+        if " error: " in l or "fatal error:" in l:
+            return re.sub(r"\s+", " ", l)[:400]
+    return re.sub(r"\s+", " ", out[-400:])
+
+
+def build_units(ctx, pid, name, source, libs, units, whole_defs=()):
+    """Build the harness.  Normally one binary drives every section.  If that translation unit does not compile
+    against the tree under test (and the compiler really diagnosed the code), every unit = (defs, signature name,
+    in scope) is compiled on its own: a unit that still fails is a verdict about the tree - VIOLATION
+    <pid>:<name>:does-not-compile if the statement names what it drives (the property cannot hold for arguments the
+    code rejects), else an OBSERVATION - and the others are run and judged as usual.
+    Returns [(binary, sections or None = all of the binary)]."""
+    try:
+        return [(vlib.build_harness(name, [source], libs=libs, defs=tuple(whole_defs)), None)]
+    except vlib.Infra as e:
+        if not genuine_compile_error(str(e)) or "link failed" in str(e).splitlines()[0]:
+            raise
+        vlib.log("the harness does not compile as a whole against this tree (%s); building %d units separately" % (first_error(str(e)), len(units)))
+        ctx.extra["whole_harness_compiles"] = False
+
+    # the objects of the fcppt libraries do not depend on the unit: compile (cache hits after the attempt above) them once
+    flags = vlib.base_flags("asan", "-O1", ())
+    tag = vlib.sha((vlib.REPO + "asan" + "-O1" + "").encode())[:10]          # = build_harness(..., defs=())
+    objdir = vlib.mkdir(os.path.join(vlib.BUILD, "obj", tag))
+    bindir = vlib.mkdir(os.path.join(vlib.BUILD, "bin", tag))
+    lib_jobs = []
+    for l in libs:
+        for src in vlib.lib_sources(l):
+            rel = os.path.relpath(src, os.path.join(vlib.REPO, "libs")).replace("/", "_")
+            lib_jobs.append((src, os.path.join(objdir, "lib_" + rel + ".o")))
+    lib_objs = [o for o, _ in vlib.parallel(lambda j: vlib.compile_obj(j[0], j[1], flags), lib_jobs, workers=vlib.NCPU)] if lib_jobs else []
+    src = os.path.join(vlib.HARNESS, source)
+
+    def one(u):
+        defs, uname, scope = u
+        obj = os.path.join(objdir, "h_%s_%s_%s.o" % (name, uname, os.path.basename(source)))
+        for attempt in (1, 2):
+            try:
+                o, rebuilt = vlib.compile_obj(src, obj, flags + ["-D" + d for d in defs])
+                break
+            except vlib.Infra as e:
+                if genuine_compile_error(str(e)):
+                    return None, str(e)
+                if attempt == 2:
+                    raise
+        out = os.path.join(bindir, "%s_%s" % (name, uname))
+        if rebuilt or not os.path.exists(out):
+            tout = out + ".tmp%d" % os.getpid()
+            p = subprocess.run(["g++", "-pthread"] + vlib.SAN_FLAGS["asan"] + [o] + lib_objs + ["-o", tout],
+                               stdout=subprocess.PIPE, stderr=subprocess.STDOUT, text=True, errors="replace")
+            if p.returncode != 0:
+                raise vlib.Infra("link failed: %s_%s\n%s" % (name, uname, p.stdout[-4000:]))
+            os.replace(tout, out)
+        return out, None
+    res = vlib.parallel(one, units, workers=max(2, min(6, vlib.NCPU)))
+    out = []
+    for (defs, uname, scope), (binary, err) in zip(units, res):
+        if binary is not None:
+            out.append((binary, sections_of(binary)))
+            continue
+        msg = "the drivers of %s (harness unit -D%s) do not compile against this tree: %s" % (uname, " -D".join(defs), first_error(err))
+        ctx.extra.setdefault("units_not_compiling", []).append({"unit": uname, "first_error": first_error(err)})
+        if scope:
+            ctx.reject("%s:%s:does-not-compile" % (pid, uname), msg, {"unit": uname, "build": True, "compiler_output_tail": err[-2500:]})
+        else:
+            observe(ctx, "%s:%s:does-not-compile" % (pid, uname), msg)
+    return out
+
+
+def build(ctx):
+    return build_units(ctx, PID, HARNESS, "c06_intmath.cpp", (), [(("C06_GROUP=%d" % g,), n, sc) for g, n, sc in GROUPS])
 
 
 def tlc_retry(*a, **kw):
@@ -84,15 +189,31 @@ def model_checks(ctx, thorough):
 
 # ------------------------------------------------------------------ recording
 def record(ctx, binary, sections, tag, extra=(), env=None):
-    """Run one harness process per section.  Returns list of (section, path, rc, output)."""
+    """Run one harness process per section.  Returns list of (section, path, rc, output).  `binary` may be a list
+    of (binary, sections or None) as build_units returns it; `sections` then selects (None = all)."""
     e = {"UBSAN_OPTIONS": UBSAN}
     e.update(env or {})
+    if isinstance(binary, str):
+        todo = [(binary, s) for s in sections]
+    else:
+        todo = []
+        for b, secs in binary:
+            for s in (secs if secs is not None else sections_of(b)):
+                if sections is None or s in sections:
+                    todo.append((b, s))
 
-    def one(s):
+    def one(bs):
+        b, s = bs
         path = os.path.join(ctx.workdir, "%s_%s.ndjson" % (tag, s.replace(":", "_")))
-        rc, out = vlib.run_harness(binary, ["record", path, ctx.tier, ctx.seed, s] + list(extra), timeout=3000, env=e)
+        try:
+            os.unlink(path)          # never judge the file of an earlier run if the process dies before opening it
+        except OSError:
+            pass
+        rc, out = vlib.run_harness(b, ["record", path, ctx.tier, ctx.seed, s] + list(extra), timeout=RUN_TIMEOUT if ctx.tier == "quick" else 3000, env=e)
+        if not os.path.exists(path):
+            open(path, "w").close()
         return (s, path, rc, out)
-    return vlib.parallel(one, sections, workers=PAR)
+    return vlib.parallel(one, todo, workers=PAR)
 
 
 def abort_kind(rc, out):
@@ -210,7 +331,7 @@ class MemRecs:
         return iter(self.items)
 
 
-def collect(ctx, runs, pid):
+def collect(ctx, runs, pid, section_fn=None):
     """Turn aborted sections into rejected calls (observations if the function is outside the statement);
     returns the index of the complete records (Recs)."""
     recs = Recs()
@@ -218,14 +339,21 @@ def collect(ctx, runs, pid):
         abort, tail = recs.add_file(s, path)
         if rc != 0:
             kind = abort_kind(rc, out)
+            ctx.extra["sections_aborted"] = ctx.extra.get("sections_aborted", 0) + 1
+            if rc == 3 and ("unknown section" in out or "usage:" in out):
+                raise vlib.Infra("harness rejected its command line (section %s): %s" % (s, out[-300:]))
             f = (abort or {}).get("f") or "?"
             if f == "?" and tail:
                 m = re.search(r'"f":"(\w+)"', tail)
                 f = m.group(1) if m else "?"
+            if f == "?":
+                # the process died without naming a call (at start-up, between two calls, in a destructor, at exit /
+                # leak report): name the function(s) the section drives
+                f = (section_fn or fn_of_section)(s)
             msg = re.search(r"(runtime error: [^\n]*|ERROR: \w+Sanitizer: [^\n]*)", out)
             what = "%s inside a driven call of %s (section %s): %s; call: %s" % (
                 kind, f, s, msg.group(1) if msg else out[-300:].replace("\n", " | "), json.dumps(abort) if abort else (tail or "")[:300])
-            if pid == "C06" and f != "?" and f not in IN_SCOPE_FNS:
+            if pid == "C06" and f not in IN_SCOPE_FNS:
                 observe(ctx, "%s:%s:%s" % (pid, f, kind), what)      # UB in a function the statement of C06 does not name
             else:
                 ctx.reject("%s:%s:%s" % (pid, f, kind), what, {"sections": [s], "abort": abort, "partial_line": (tail or "")[:500]})
@@ -412,6 +540,45 @@ def sample(ctx, recs):
             break
 
 
+def rejected_anything(ctx):
+    return bool(ctx.violations or ctx.known_hits or ctx.extra.get("observations"))
+
+
+def selftest_applicable(ctx):
+    """The vacuity guard of the judge corrupts *recorded* records: it presupposes that they are right and that every
+    section delivered its records, so it only runs when the judge accepted everything in scope, no section aborted
+    and every unit compiled (otherwise the run ends in a VIOLATION / OBSERVATION about the code anyway)."""
+    return not (ctx.violations or ctx.known_hits or ctx.extra.get("sections_aborted") or ctx.extra.get("units_not_compiling"))
+
+
+def after_verdict(ctx, fn):
+    """Run the later stages of a check.  Once the code under test has been rejected (a VIOLATION exists), a failure
+    of our machinery in a later stage must not replace that verdict by exit 2: it is logged and the run ends with the
+    verdict it has.  Without a rejection an infrastructure failure stays one."""
+    try:
+        fn()
+    except vlib.Infra as e:
+        if not ctx.violations:
+            raise
+        vlib.log("INFRA problem after a rejection (verdict kept): %s" % str(e)[:600])
+        ctx.extra["infra_after_verdict"] = str(e)[:600]
+    except Exception as e:       # a record our bookkeeping cannot digest
+        if not ctx.violations:
+            raise
+        vlib.log("bookkeeping problem after a rejection (verdict kept): %r" % (e,))
+        ctx.extra["infra_after_verdict"] = repr(e)[:600]
+
+
+def judge_all(ctx, recs):
+    if len(recs) == 0:
+        return
+    ctx.evaluations += count(ctx, recs)
+    sample(ctx, recs)
+    bads = judge(ctx, recs, JUDGE, "c06")
+    if report(ctx, bads, PID) == 0 and selftest_applicable(ctx):
+        selftest(ctx, recs, JUDGE, "c06self", corrupt_c06, 40)
+
+
 def sections_of(binary):
     rc, out = vlib.run_harness(binary, ["sections"], timeout=60)
     if rc != 0:
@@ -422,20 +589,14 @@ def sections_of(binary):
 def run(ctx):
     thorough = ctx.tier == "thorough"
     with concurrent.futures.ThreadPoolExecutor(max_workers=2) as ex:
-        fb = ex.submit(build)
+        fb = ex.submit(build, ctx)
         model_checks(ctx, thorough)
-        binary = fb.result()
-    runs = record(ctx, binary, sections_of(binary), "rec")
+        binaries = fb.result()
+    runs = record(ctx, binaries, None, "rec")
     recs = collect(ctx, runs, PID)
-    if len(recs) == 0:
+    if len(recs) == 0 and not rejected_anything(ctx):
         raise vlib.Infra("the harness recorded nothing")
-    ctx.evaluations += count(ctx, recs)
-    sample(ctx, recs)
-    bads = judge(ctx, recs, JUDGE, "c06")
-    if report(ctx, bads, PID) == 0:
-        # vacuity guard of the judge; it presupposes that the recorded results are right, so it only runs
-        # when the judge accepted all of them (otherwise the run ends in a VIOLATION anyway)
-        selftest(ctx, recs, JUDGE, "c06self", corrupt_c06, 40)
+    after_verdict(ctx, lambda: judge_all(ctx, recs))
     ctx.traces_validated += ctx.extra.get("judge_chunks", 0)
     ctx.extra["records"] = len(recs)
     ctx.exhaustive = False
@@ -458,11 +619,11 @@ def run(ctx):
 
 
 def replay(ctx, payload):
-    binary = build()
-    secs = payload["payload"].get("sections") or sections_of(binary)
+    binaries = build(ctx)
+    secs = payload["payload"].get("sections") or None
     ctx.tier = payload.get("tier", ctx.tier)
     ctx.seed = payload.get("seed", ctx.seed)
-    runs = record(ctx, binary, secs, "replay")
+    runs = record(ctx, binaries, secs, "replay")
     recs = collect(ctx, runs, PID)
     if len(recs):
         ctx.evaluations += count(ctx, recs)
